@@ -145,6 +145,17 @@ def gen_cases(rng, tier):
                          _opd(rng, rb, rng.choice('qu'))]
                     cases.append({'dm': rng.choice(W.MODES), 'pre': False, 'script': script,
                                   'hist': [], 'q': {'k': 'op', 'o': o}})
+        # the product / quotient of the two units a term-defined unit is made of
+        for d in script:
+            if d['d'] == 'unit' and d.get('def') and d['def'][0] == 'term' and len(d['def'][1]) == 3 \
+                    and d['def'][1][0][0][0] == 'n':
+                (_, (_, u1), _), (_, (_, u2), e2) = [(x, x[0], x[1]) for x in d['def'][1][1:]]
+                o = ['mul' if e2 == 1 else 'div', _opd(rng, u1, rng.choice('qu')),
+                     _opd(rng, u2, rng.choice('qu'))]
+                if o[0] == 'div' and o[2][0] == 'q':
+                    o[2][1] = _nonzero_stored(rng, w, u2)
+                cases.append({'dm': rng.choice(W.MODES), 'pre': False, 'script': script,
+                              'hist': [], 'q': {'k': 'op', 'o': o}})
         for _ in range(3):
             r = rng.random()
             if r < 0.2:
